@@ -165,3 +165,191 @@ Proof.
   intros Hwf. unfold count_triangles_flat. apply (tri_nodes_ok n); auto.
   intros v Hv. apply in_seq in Hv. destruct Hwf as (Hl & _). lia.
 Qed.
+
+(** The while loop of count_local_triangles_from_dag, started as the code starts it, ends within
+    (row length of node + row length of neighbor) iterations. *)
+Theorem tri_while_bound n indptr indices node neighbor acc :
+  csr_pat_wf n indptr indices -> node < n -> neighbor < n ->
+  exists r, tri_while (row_len indptr node + row_len indptr neighbor) indptr indices node neighbor
+                      (ip indptr node) (ip indptr neighbor) acc = KOk r.
+Proof.
+  intros Hwf H1 H2. apply (tri_while_ok n); auto; unfold row_len; lia.
+Qed.
+
+(** * 2. vote_update (Model/Vote.v, [repaired_kernel]) *)
+
+Lemma nth_error_some {A} (l : list A) i d : i < length l -> nth_error l i = Some (nth i l d).
+Proof. intros H. apply nth_error_nth'. exact H. Qed.
+
+Lemma gather_safe n indices (data : list Q) labels :
+  length data = length indices -> length labels = n ->
+  (forall k, k < length indices -> nth k indices 0 < n) ->
+  forall js ln vn,
+    (forall j, In j js -> j < length indices) -> length ln = length vn ->
+    exists ln' vn', gather repaired_kernel indices data labels js ln vn = VOk (ln', vn') /\
+                    length ln' = length vn' /\
+                    (forall l, In l ln' -> In l ln \/ In l labels).
+Proof.
+  intros Hd Hl Hidx. induction js as [|j t IH]; intros ln vn Hjs Hlen; cbn [gather].
+  - exists ln, vn. auto.
+  - assert (Hj : j < length indices) by (apply Hjs; left; reflexivity).
+    rewrite (nth_error_some indices j 0 Hj).
+    pose proof (Hidx j Hj) as Hjj.
+    rewrite (nth_error_some labels (nth j indices 0) 0%Z) by lia.
+    cbn [wpos repaired_kernel].
+    rewrite (nth_error_some data j 0%Q) by lia.
+    destruct (IH (ln ++ [nth (nth j indices 0) labels 0%Z]) (vn ++ [nth j data 0%Q])) as (ln' & vn' & Hg & Hlen' & Hin).
+    + intros j' Hj'. apply Hjs. right. exact Hj'.
+    + rewrite !app_length. simpl. lia.
+    + exists ln', vn'. split; [exact Hg|]. split; [exact Hlen'|].
+      intros l Hl'. destruct (Hin l Hl') as [H|H]; [|right; exact H].
+      apply in_app_or in H. destruct H as [H|[H|[]]]; [left; exact H|].
+      right. subst l. apply nth_In. lia.
+Qed.
+
+Lemma tally_safe m : forall ln p vn uniq votes,
+  length votes = m -> p + length ln <= length vn ->
+  (forall l, In l ln -> (l < Z.of_nat m)%Z) -> Forall (fun u => u < m) uniq ->
+  exists uniq' votes', tally ln p vn uniq votes = VOk (uniq', votes') /\
+                       length votes' = m /\ Forall (fun u => u < m) uniq'.
+Proof.
+  induction ln as [|l t IH]; intros p vn uniq votes Hv Hp Hl Hu; cbn [tally].
+  - exists uniq, votes. auto.
+  - simpl in Hp. destruct (l <? 0)%Z eqn:El.
+    + apply IH; auto; try lia. intros l' Hl'. apply Hl. right. exact Hl'.
+    + apply Z.ltb_ge in El.
+      rewrite (nth_error_some vn p 0%Q) by lia.
+      assert (Hlm : Z.to_nat l < m) by (specialize (Hl l (or_introl eq_refl)); lia).
+      rewrite (nth_error_some votes (Z.to_nat l) 0%Q) by lia.
+      apply IH.
+      * rewrite upd_length. exact Hv.
+      * lia.
+      * intros l' Hl'. apply Hl. right. exact Hl'.
+      * apply Forall_forall. intros u Hu'. apply set_insert_In in Hu'.
+        destruct Hu' as [->|Hu']; [exact Hlm|]. rewrite Forall_forall in Hu. apply Hu. exact Hu'.
+Qed.
+
+Lemma select_safe m : forall uniq i best labels votes,
+  length votes = m -> Forall (fun u => u < m) uniq -> i < length labels ->
+  Forall (fun l => (l < Z.of_nat m)%Z) labels ->
+  exists labels' votes', select uniq i best labels votes = VOk (labels', votes') /\
+                         length labels' = length labels /\ length votes' = m /\
+                         Forall (fun l => (l < Z.of_nat m)%Z) labels'.
+Proof.
+  induction uniq as [|l t IH]; intros i best labels votes Hv Hu Hi HL; cbn [select].
+  - exists labels, votes. auto.
+  - inversion Hu as [|? ? Hlm Hu']; subst.
+    rewrite (nth_error_some votes l 0%Q) by lia.
+    destruct (Qle_bool (nth l votes 0%Q) best).
+    + apply IH; auto. rewrite upd_length. reflexivity.
+    + apply Nat.ltb_lt in Hi. rewrite Hi. apply Nat.ltb_lt in Hi.
+      destruct (IH i (nth l votes 0%Q) (upd labels i (Z.of_nat l)) (upd votes l 0%Q))
+        as (labels' & votes' & Hs & Hl1 & Hl2 & HF).
+      * rewrite upd_length. reflexivity.
+      * exact Hu'.
+      * rewrite upd_length. exact Hi.
+      * apply Forall_forall. intros x Hx. apply In_upd in Hx. destruct Hx as [->|Hx]; [lia|].
+        rewrite Forall_forall in HL. apply HL. exact Hx.
+      * exists labels', votes'. rewrite upd_length in Hl1. auto.
+Qed.
+
+Definition vinv (n m : nat) (st : vstate) : Prop :=
+  let '(labels, votes, _) := st in
+  length labels = n /\ length votes = m /\ Forall (fun l => (l < Z.of_nat m)%Z) labels.
+
+Lemma vote_node_safe n m indptr indices (data : list Q) i st :
+  csr_wf n indptr indices data -> i < n -> vinv n m st ->
+  exists st', vote_node repaired_kernel indptr indices data i st = VOk st' /\ vinv n m st'.
+Proof.
+  intros [Hwf Hd] Hi Hinv. destruct st as [[labels votes] vn]. destruct Hinv as (HL & HV & HF).
+  unfold vote_node.
+  pose proof Hwf as (Hlen & _ & _ & _ & Hidx).
+  rewrite (nth_error_some indptr i 0) by lia.
+  rewrite (nth_error_some indptr (S i) 0) by lia.
+  fold (ip indptr i). fold (ip indptr (S i)).
+  cbn [clr repaired_kernel].
+  destruct (gather_safe n indices data labels Hd HL Hidx
+              (seq (ip indptr i) (ip indptr (S i) - ip indptr i)) [] [])
+    as (ln & vn' & Hg & Hlen' & Hin).
+  { intros j Hj. apply in_seq in Hj.
+    pose proof (csr_le_nnz _ _ _ (S i) Hwf ltac:(lia)).
+    pose proof (csr_mono _ _ _ Hwf i (S i) ltac:(lia) ltac:(lia)). lia. }
+  { reflexivity. }
+  rewrite Hg.
+  destruct (tally_safe m ln 0 vn' [] votes HV) as (uniq & votes' & Ht & HV' & HU).
+  { lia. }
+  { intros l Hl. destruct (Hin l Hl) as [[]|Hl']. rewrite Forall_forall in HF. apply HF. exact Hl'. }
+  { constructor. }
+  rewrite Ht.
+  destruct (select_safe m uniq i (-1)%Q labels votes' HV' HU ltac:(lia) HF)
+    as (labels' & votes'' & Hs & HL' & HV'' & HF').
+  rewrite Hs. eexists. split; [reflexivity|]. unfold vinv. repeat split; auto. lia.
+Qed.
+
+Lemma vote_loop_safe n m indptr indices (data : list Q) :
+  csr_wf n indptr indices data ->
+  forall index st, (forall i, In i index -> i < n) -> vinv n m st ->
+    exists st', vote_loop repaired_kernel indptr indices data index st = VOk st' /\ vinv n m st'.
+Proof.
+  intros Hwf. induction index as [|i t IH]; intros st Hidx Hinv; cbn [vote_loop].
+  - exists st. auto.
+  - destruct (vote_node_safe n m indptr indices data i st Hwf (Hidx i (or_introl eq_refl)) Hinv)
+      as (st' & Hn & Hinv').
+    rewrite Hn. apply IH; auto. intros i' Hi'. apply Hidx. right. exact Hi'.
+Qed.
+
+Lemma zmax_ge labels l : In l labels -> (l <= fold_right Z.max (-1)%Z labels)%Z.
+Proof.
+  induction labels as [|a t IH]; intros H; [destruct H|]. simpl.
+  destruct H as [->|H]; [lia|]. specialize (IH H). lia.
+Qed.
+
+(** vote_update of the current source: no out-of-bounds access on well-formed input. The contract
+    [labels >= -1] of the caller is not needed. There is no while loop in the kernel (three nested
+    [for] loops over finite ranges): the model is a structural recursion and needs no fuel. *)
+Theorem vote_update_safe_ok n indptr indices (data : list Q) labels index :
+  csr_wf n indptr indices data -> length labels = n -> (forall i, In i index -> i < n) ->
+  exists labels', vote_update repaired_kernel indptr indices data labels index = VOk labels' /\
+                  length labels' = n.
+Proof.
+  intros Hwf HL Hidx. unfold vote_update.
+  destruct (vote_loop_safe n (votes_size repaired_kernel labels) indptr indices data Hwf index
+              (labels, repeat 0%Q (votes_size repaired_kernel labels), []) Hidx)
+    as ([[labels' votes'] vn'] & Hl & Hinv).
+  { unfold vinv. split; [exact HL|]. split; [apply repeat_length|].
+    apply Forall_forall. intros l Hl. pose proof (zmax_ge labels l Hl) as Hm.
+    unfold votes_size. cbn [vlab repaired_kernel]. lia. }
+  rewrite Hl. exists labels'. split; [reflexivity|]. destruct Hinv as (H & _). exact H.
+Qed.
+
+(** The legacy kernel (weight read at [data[jj]], jj the neighbour NODE; [votes] sized n) *)
+Definition leg1_indptr := [0; 1; 1; 1].
+Definition leg1_indices := [2].
+Definition leg1_data : list Q := [1%Q].
+Definition leg1_labels : list Z := [-1; 0; 1]%Z.
+Definition leg1_index := [0].
+
+Definition leg2_indptr := [0; 1; 2].
+Definition leg2_indices := [1; 0].
+Definition leg2_data : list Q := [1%Q; 1%Q].
+Definition leg2_labels : list Z := [-1; 5]%Z.
+Definition leg2_index := [0].
+
+Theorem vote_legacy_oob_refuted_ok :
+  (csr_wf 3 leg1_indptr leg1_indices leg1_data /\ length leg1_labels = 3 /\
+   (forall i, In i leg1_index -> i < 3) /\ length leg1_indices < 3 /\
+   vote_update legacy_kernel leg1_indptr leg1_indices leg1_data leg1_labels leg1_index = VOOB At_data /\
+   exists l, vote_update repaired_kernel leg1_indptr leg1_indices leg1_data leg1_labels leg1_index = VOk l) /\
+  (csr_wf 2 leg2_indptr leg2_indices leg2_data /\ length leg2_labels = 2 /\
+   (forall i, In i leg2_index -> i < 2) /\ In 5%Z leg2_labels /\
+   vote_update legacy_kernel leg2_indptr leg2_indices leg2_data leg2_labels leg2_index = VOOB At_votes /\
+   exists l, vote_update repaired_kernel leg2_indptr leg2_indices leg2_data leg2_labels leg2_index = VOk l).
+Proof.
+  split.
+  - split; [apply csr_wf_b_sound; reflexivity|]. split; [reflexivity|].
+    split; [intros i [<-|[]]; lia|]. split; [simpl; lia|]. split; [vm_compute; reflexivity|].
+    eexists. vm_compute. reflexivity.
+  - split; [apply csr_wf_b_sound; reflexivity|]. split; [reflexivity|].
+    split; [intros i [<-|[]]; lia|]. split; [simpl; auto|]. split; [vm_compute; reflexivity|].
+    eexists. vm_compute. reflexivity.
+Qed.
